@@ -335,7 +335,7 @@ def run(chk):
 
     # ------------------------------------------------------------------ (i) model / implementation / Python on the core
     cases = []   # (op, operands, expr, model line, oracle)
-    n_core = 1500 if quick else 40000
+    n_core = 1000 if quick else 40000
 
     def orc(f):
         try:
@@ -473,7 +473,7 @@ def run(chk):
             unusable.append(sig_key(s) + " (" + d[:60] + ")")
         else:
             usable.append(s)
-    per = 30 if quick else 800
+    per = 20 if quick else 800
     fcases = []
     for s in usable:
         for _ in range(per):
@@ -482,7 +482,7 @@ def run(chk):
                 fcases.append((s, e))
     # `per` is a multiple of the batch size, so a batch holds calls of one function only: a call that does not
     # compile or panics makes only that function's batch fall back to one process per expression
-    fd = safe_eval([e for _, e in fcases], batch=30 if quick else 40)
+    fd = safe_eval([e for _, e in fcases], batch=20 if quick else 40)
     stats = {}
     for (s, e), d in zip(fcases, fd):
         chk.evaluations += 1
